@@ -79,7 +79,8 @@ def run_case(rng, idx, tier):
             e = (o.h(dh) - float(p @ dh)) / L
             worst["extremality/L"] = max(worst["extremality/L"], e)
             if e > TOL:
-                viol.append({"key": {"kind": "not-extreme", "type": O.name(spec), "what": what}, "err": e,
+                viol.append({"key": {"kind": "not-extreme", "type": O.name(spec), "what": what,
+                                     "tiny_direction": bool(np.linalg.norm(d) < 1e-6)}, "err": e,
                              "msg": "%s of %s: support value missed by %.3g*L for d=%s" % (what, O.name(spec), e, d.tolist())})
 
     cur = orc
